@@ -133,9 +133,7 @@ def bag_contains(interp, bag, item):
     parts = []
     for s in bag.sites:
         s2 = s.rename(interp.ctx)
-        eq = interp.veq(s2.elem, item)
-        inner = z3.ForAll(s2.hvars, z3.Implies(s2.cond_h, eq)) if s2.hvars else eq
-        body = z3.And(s2.cond, inner)
+        body = s2.exists_body(interp.veq(s2.elem, item))
         parts.append(z3.Exists(s2.bvars, body) if s2.bvars else body)
     return z3.Or(*parts) if parts else z3.BoolVal(False)
 
@@ -174,8 +172,7 @@ def _exists_in(interp, args, kwargs, node):
     for s in bag.sites:
         s2 = s.rename(interp.ctx)
         p = B(interp, interp.call(lam, [s2.elem], {}, node))
-        inner = z3.ForAll(s2.hvars, z3.Implies(s2.cond_h, p)) if s2.hvars else p
-        body = z3.And(s2.cond, inner)
+        body = s2.exists_body(p)
         parts.append(z3.Exists(s2.bvars, body) if s2.bvars else body)
     return VBool(z3.Or(*parts) if parts else z3.BoolVal(False))
 
@@ -346,6 +343,14 @@ def apply_uf(interp, fv, args, node):
 
 
 def sorted_of(interp, v, kwargs, node):
+    """sorted(iterable, key=...) is a permutation of its elements: as a bag it is the same collection
+    (the order itself is not modelled: indexing / slicing the result is rejected)"""
+    if isinstance(v, (VList, VSet)) and getattr(v, "pred", None) is None and v.content is not None:
+        bag = interp.to_bag(v.content)
+        interp.ctx.assumed.add("python:sorted() returns a permutation of its argument (order not modelled)")
+        r = VList(CompBag(list(bag.sites)), "list")
+        r.setlike = isinstance(v, VSet) or getattr(v, "setlike", False)
+        return interp.born(r)
     raise Unsupported("sorted() of a symbolic collection")
 
 
@@ -758,17 +763,16 @@ def _member(interp, args, kwargs, node):
             continue
         s2 = s.rename(interp.ctx) if s.hvars else s
         sub = [(bv2, ht) for (bv2, (_, ht)) in zip(s2.bvars, sub)]
-        cond = z3.substitute(s2.cond, *sub)
+        inst = Site(s2.label, [], z3.substitute(s2.cond, *sub), vsubst(s2.elem, sub), s2.hvars,
+                    z3.substitute(s2.cond_h, *sub), z3.substitute(s2.cond_d, *sub))
         if kwargs and "inner" in kwargs:
             tuples = []
             for h in interp.iter_concrete(kwargs["inner"]):
                 hv = list(h.items) if isinstance(h, VTuple) else [h]
                 tuples.append([x.term for x in hv])
-            cond = open_exists(cond, tuples)
-        eq = interp.veq(vsubst(s2.elem, sub), y)
-        if s2.hvars:
-            eq = z3.ForAll(s2.hvars, z3.Implies(z3.substitute(s2.cond_h, *sub), eq))
-        parts.append(z3.And(cond, eq))
+            inst.cond = open_exists(inst.cond, tuples)
+            inst.cond_d = open_exists(inst.cond_d, tuples)
+        parts.append(inst.exists_body(interp.veq(inst.elem, y)))
     return VBool(z3.Or(*parts) if parts else z3.BoolVal(False))
 
 
